@@ -1,5 +1,6 @@
 """C09 — printed lines and their coordinates are the input's own; JSON output is lossless."""
 import base64
+import subprocess
 import json as pyjson
 import re
 
@@ -794,6 +795,14 @@ def run_cols_batch(ctx, cases, cli_every):
             ctx.cov["skipped_searcher_broke_prefix_law_C16"] = ctx.cov.get("skipped_searcher_broke_prefix_law_C16", 0) + 1
             continue
         real = v[2]
+        # the one fact the theorems assume about bstr's segmentation (preview_is_a_prefix_within_the_cut): the ends of the
+        # graphemes of s ascend strictly and the last one is len(s)
+        for row in v[1][4]:
+            sbytes, ends = as_bytes(row[0]), (list(row[1]) if isinstance(row[1], (bytes, list)) else [])
+            ctx.cov["grapheme_rows"] = ctx.cov.get("grapheme_rows", 0) + 1
+            if any(b <= a for a, b in zip([0] + ends, ends)) or (ends[-1] if ends else 0) != len(sbytes):
+                ctx.violation("bstr's grapheme ends of %r are %r: not ascending up to the length (assumed contract of "
+                              "the preview theorems)" % (sbytes, ends), dict(kind=901, line=lines[i], c=cols_jsonable(c)), nfi=True)
         mo = mouts[j]
         mv = parse_val(mo) if mo.startswith("(") else mo
         if not isinstance(mv, list) or len(mv) != len(real):
@@ -843,6 +852,12 @@ def directed_cols_findings(ctx):
     rc, u, _ = pl.rg(["-M", "2", "--max-columns-preview", "--column", "foo"], vlib.CACHE, stdin=b"foo xxxxxxxx\n")
     if b"0 more matches" in u and b"0 more matches" not in t:
         ctx.known("PreviewCountUnderTrim", "--trim: %r, the same line without the blanks: %r" % (t, u))
+    # colours are outside the model; this one is observed on the binary only
+    rc, plain, _ = pl.rg(["--trim", "-M", "5", "-N", "abc"], vlib.CACHE, stdin=b"      abc\n")
+    p = subprocess.run([vlib.RG, "--no-config", "--color", "always", "--trim", "-M", "5", "-N", "abc"], cwd=vlib.CACHE,
+                       input=b"      abc\n", stdout=subprocess.PIPE, stderr=subprocess.PIPE)
+    if plain == b"abc\n" and b"[Omitted" in p.stdout:
+        ctx.known("ColourChangesOmittedLines", "--trim -M 5 on '      abc': %r without colours, %r with" % (plain, p.stdout))
 
 
 def run_cols(ctx):
